@@ -36,6 +36,10 @@ pub enum Term {
     Macro,
     /// `\relax` directly followed by the next piece, no blank in between.
     RelaxTight,
+    /// Through a macro with a space-delimited parameter and tokens after the name in its body
+    /// (`\def\xK#1 {\input #1 [K]}`), called as the last thing on a line so that the end of
+    /// the line delimits the argument: the caller's line is used up while `[K]` is still pending.
+    ArgMacro,
 }
 
 #[derive(Clone, Debug, Serialize, Deserialize, PartialEq, Eq)]
@@ -91,6 +95,7 @@ fn render_piece(p: &Piece) -> String {
                 Term::Space => format!("\\input {name} "),
                 Term::Relax => format!("\\input {name}\\relax "),
                 Term::RelaxTight => format!("\\input {name}\\relax"),
+                Term::ArgMacro => format!("\\xK {name}"),
                 Term::Eol => format!("\\input {name}"),
                 Term::Ext => {
                     if name.ends_with(".tex") {
@@ -192,6 +197,8 @@ fn flatten_line(
                 cur = match term {
                     Term::Relax => "\\relax ".to_string(),
                     Term::RelaxTight => "\\relax".to_string(),
+                    // the end of the caller's line was consumed as the argument delimiter
+                    Term::ArgMacro => "[K]%".to_string(),
                     _ => String::new(),
                 };
                 resumed = true;
@@ -241,7 +248,7 @@ fn flatten_main(case: &InlineCase, sem: Sem) -> Vec<String> {
 }
 
 fn inline_preamble() -> String {
-    let mut s = String::from("\\def\\par{<P>}\\def\\xE{\\endinput}");
+    let mut s = String::from("\\def\\par{<P>}\\def\\xE{\\endinput}\\def\\xK#1 {\\input #1 [K]}");
     for (i, n) in FILE_NAMES.iter().enumerate() {
         let written = if n.contains('.') {
             format!("{n}.tex")
@@ -280,6 +287,7 @@ fn inline_job(case: &InlineCase, lines: Vec<String>) -> Job {
                 .enumerate()
                 .filter_map(|(i, f)| f.fault.map(|k| (format!("{}.tex", file_name(i)), k)))
                 .collect(),
+            fs_write_faults: vec![],
         },
         clock: Clock::default(),
         real_state: false,
@@ -320,7 +328,11 @@ fn gen_inline(rng: &mut Rng) -> InlineCase {
                 if x < 25 && max_file > 0 {
                     let last = k + 1 == np;
                     let term = if last && rng.chance(1, 3) {
-                        Term::Eol
+                        if rng.chance(1, 2) {
+                            Term::ArgMacro
+                        } else {
+                            Term::Eol
+                        }
                     } else {
                         [Term::Space, Term::Space, Term::Relax, Term::Ext, Term::Macro, Term::RelaxTight][rng.below(6)].clone()
                     };
@@ -349,7 +361,15 @@ fn gen_inline(rng: &mut Rng) -> InlineCase {
                 l.truncate(pos + 1);
             }
             // An `\input` terminated by end-of-line must be the last piece.
-            if let Some(pos) = l.iter().position(|p| matches!(p, Piece::Input { term: Term::Eol, .. })) {
+            if let Some(pos) = l.iter().position(|p| {
+                matches!(
+                    p,
+                    Piece::Input {
+                        term: Term::Eol | Term::ArgMacro,
+                        ..
+                    }
+                )
+            }) {
                 l.truncate(pos + 1);
             }
             lines.push(l);
@@ -867,6 +887,7 @@ fn stream_job(case: &StreamCase) -> (Job, Vec<(usize, usize)>) {
                 .enumerate()
                 .filter_map(|(i, (_, _, f))| f.map(|k| (format!("{}.tex", stream_file_name(i)), k)))
                 .collect(),
+            fs_write_faults: vec![],
         },
         clock: Clock::default(),
         real_state: false,
